@@ -51,6 +51,10 @@ impl NodeRecordStore {
             received_payment_count: self.received_payment_count,
         }
     }
+    /// Capacity of a store that was built by `NetworkBuilder` (which offers no setting for it).
+    pub fn verif_set_max_records(&mut self, max_records: usize) {
+        self.config.max_records = max_records;
+    }
     pub fn verif_local_address(&self) -> NetworkAddress {
         self.local_address.clone()
     }
